@@ -62,6 +62,9 @@ def _asan_site(stderr):
     """normalised site of an ASan report: kind + first frames that are in the repository's sources"""
     m = ASAN_RE.search(stderr)
     kind = m.group(1) if m else 'unknown'
+    if kind == 'attempting':   # "attempting double-free on ..." / "attempting free on address which was not malloc()-ed"
+        m2 = re.search(r'AddressSanitizer: attempting ([\w-]+)', stderr)
+        kind = m2.group(1) if m2 else kind
     frames = []
     # only the faulting stack (first block of "#n" lines after the ERROR line)
     start = m.end() if m else 0
